@@ -195,6 +195,105 @@ pub fn graph_case(ctx: &Ctx, c: &GraphCase) -> Vec<Viol> {
     out
 }
 
+// ---------------- meshes larger than the 20 entries one announcement carries ----------------
+
+#[derive(Clone, Debug, Serialize, Deserialize)]
+pub struct BigMesh {
+    pub nodes: u8,
+    /// 0 star (everybody dials node 0), 1 star (node 0 dials everybody), 2 path, 3 random tree from `seed`
+    pub shape: u8,
+    pub seed: u32,
+    #[serde(default)]
+    pub plain: bool,
+}
+
+/// An announcement lists at most 20 peers (a random choice of 20 when a node has more), so with more than 21 nodes
+/// no single message describes the mesh; the property still demands the full mesh within a bounded number of
+/// intervals. Bound used: n intervals + 130 s, as for the small graphs (each announcement misses a given peer with
+/// probability <= (k-20)/k, so n rounds leave a pair unconnected with probability far below 1e-12 for n <= 30).
+pub fn bigmesh_case(ctx: &Ctx, c: &BigMesh) -> Vec<Viol> {
+    ctx.eval();
+    let cj = || json!({"kind": "bigmesh", "case": c});
+    let mut out = vec![];
+    let n = c.nodes.clamp(3, 40) as usize;
+    let mut sim: NetSim<Frame> = NetSim::new();
+    sim.storm_limit = 400_000;
+    for _ in 0..n {
+        let mut cfg = base_config();
+        cfg.auto_claim = false;
+        cfg.mode = Mode::Switch;
+        if c.plain {
+            cfg.crypto.algorithms = vec!["plain".to_string()];
+        }
+        sim.add_node(&cfg, false);
+    }
+    let mut x = c.seed as u64 | 1;
+    let mut next = |m: usize| {
+        x = x.wrapping_mul(6364136223846793005).wrapping_add(1442695040888963407);
+        ((x >> 33) as usize) % m
+    };
+    for i in 1..n {
+        let (from, to) = match c.shape & 3 {
+            0 => (i, 0),
+            1 => (0, i),
+            2 => (i, i - 1),
+            _ => {
+                let parent = next(i);
+                if next(2) == 0 { (i, parent) } else { (parent, i) }
+            }
+        };
+        let a = sim.addr(to);
+        sim.connect(from, a);
+    }
+    sim.settle();
+    let bound = n as i64 * 90 + 130;
+    let mut meshed_at = None;
+    for s in 0..bound {
+        if sim.all_connected() {
+            meshed_at = Some(s);
+            break;
+        }
+        sim.tick();
+        if sim.storm {
+            ctx.class("inconclusive:handshake-repeat-loop(storm)");
+            return out;
+        }
+        if let Some(why) = self_peer_violation(&sim) {
+            out.push(Viol::new("node-peers-with-itself", format!("t+{}: {}", s, why), cj()));
+            return out;
+        }
+        if let Some((i, p, ctxt)) = sim.panics.first() {
+            out.push(Viol::new(format!("node-{}", p.sig()), format!("node {} panicked: {} ({})", i, p.msg, ctxt), cj()));
+            return out;
+        }
+    }
+    match meshed_at {
+        None => {
+            let missing: Vec<(usize, usize)> = (0..n).flat_map(|i| (0..n).map(move |j| (i, j))).filter(|(i, j)| i != j && !sim.is_connected(*i, *j)).take(12).collect();
+            out.push(Viol::new(
+                "no-full-mesh-within-bound",
+                format!("{} nodes (more than one announcement can list), shape {}: after {} s these directed pairs (first 12) are not connected: {:?}", n, c.shape, bound, missing),
+                cj(),
+            ));
+        }
+        Some(s) => {
+            ctx.class(&format!("bigmesh:{}-nodes-meshed-within-{}s", if n > 21 { ">21" } else { "<=21" }, ((s / 90) + 1) * 90));
+            for _ in 0..200 {
+                sim.tick();
+                if let Some(why) = self_peer_violation(&sim) {
+                    out.push(Viol::new("node-peers-with-itself", why, cj()));
+                    return out;
+                }
+            }
+            if !sim.all_connected() && !sim.storm {
+                out.push(Viol::new("mesh-falls-apart", format!("{} nodes fully meshed, but 200 s later a pair is disconnected", n), cj()));
+            }
+            ctx.nontrivial(&("bigmesh", c.nodes, c.shape, c.seed, c.plain));
+        }
+    }
+    out
+}
+
 // ---------------- self dial ----------------
 
 #[derive(Clone, Debug, Serialize, Deserialize)]
@@ -436,6 +535,24 @@ pub fn run(ctx: &Ctx) {
     );
     ctx.subspace("proptest: graphs on 2..=8 nodes, random orientations, NAT masks", n as u64, false);
 
+    // (1b) meshes with more nodes than one announcement lists (20)
+    let mut big = vec![];
+    for (k, n) in ctx.tier.pick(vec![23u8, 26], vec![21u8, 22, 23, 24, 26, 30]).into_iter().enumerate() {
+        for shape in 0..4u8 {
+            if shape == 2 && n > 23 && ctx.tier.pick(true, false) {
+                continue;
+            }
+            big.push(BigMesh { nodes: n, shape, seed: ctx.seed as u32 ^ (k as u32 * 7919 + shape as u32), plain: shape == 1 && k % 2 == 1 });
+        }
+    }
+    let nbig = big.len() as u64;
+    ctx.par_items(&big, |_, c| {
+        let v = bigmesh_case(ctx, c);
+        ctx.report(v);
+    });
+    ctx.subspace("meshes of 21..30 nodes (an announcement lists at most 20 peers): star dialled inwards / outwards, path, random tree", nbig, false);
+    ctx.sample("bigmesh", || serde_json::to_value(&big[0]).unwrap());
+
     // (2) self dial: all combinations
     let mut sd = vec![];
     for in_mesh in [false, true] {
@@ -465,6 +582,7 @@ pub fn replay(ctx: &Ctx, case: &Value) {
     let v = match case["kind"].as_str() {
         Some("graph") => serde_json::from_value::<GraphCase>(case["case"].clone()).map(|c| graph_case(ctx, &c)).unwrap_or_default(),
         Some("selfdial") => serde_json::from_value::<SelfDial>(case["case"].clone()).map(|c| selfdial_case(ctx, &c)).unwrap_or_default(),
+        Some("bigmesh") => serde_json::from_value::<BigMesh>(case["case"].clone()).map(|c| bigmesh_case(ctx, &c)).unwrap_or_default(),
         Some("adoption") => adoption_case(ctx, case["seconds"].as_u64().unwrap_or(0) as u16),
         _ => vec![],
     };
